@@ -211,14 +211,16 @@ impl Backend for DieselSqlite {
     fn variants() -> usize {
         // (recycling method, how a connection gets broken): each method with
         // its own failing check, and every method with a dangling transaction
-        // (the backend's own "broken" report, which no method may override)
-        6
+        // (the backend's own "broken" report, which no method may override);
+        // 6, 7: Fast / Verified with the transaction manager in its error state
+        // (what a failed rollback leaves behind)
+        8
     }
     fn build(ms: usize, v: usize) -> Pool<Self::M> {
         use deadpool_diesel::{ManagerConfig, RecyclingMethod};
         let method = match v {
-            0 => RecyclingMethod::Fast,
-            1 => RecyclingMethod::Verified,
+            0 | 6 => RecyclingMethod::Fast,
+            1 | 7 => RecyclingMethod::Verified,
             2 | 4 => RecyclingMethod::CustomQuery("SELECT 1 FROM ok_marker".into()),
             _ => RecyclingMethod::CustomFunction(Box::new(|conn: &mut diesel::SqliteConnection| {
                 let s = diesel_serial(conn).unwrap_or(-1);
@@ -254,6 +256,9 @@ impl Backend for DieselSqlite {
             }
             2 => {
                 diesel::sql_query("DROP TABLE ok_marker").execute(conn).unwrap();
+            }
+            6 | 7 => {
+                AnsiTransactionManager::transaction_manager_status_mut(conn).set_in_error();
             }
             _ => {
                 c(|w| {
